@@ -292,6 +292,12 @@ func TestVerifC07Random(t *testing.T) {
 	})
 }
 
+func TestVerifC07CrossKind(t *testing.T) {
+	vs.Run(t, "C07", func(c *vs.Case) error {
+		return vw.PropC07CrossKind(c, compositeFactory)
+	})
+}
+
 func TestVerifC08Random(t *testing.T) {
 	vs.Run(t, "C08", func(c *vs.Case) error {
 		return vw.PropC08(c, compositeFactory, vw.RolloutOpts{MaxChildren: 6, Scale: true, TwoKinds: true})
